@@ -53,9 +53,13 @@ def run_job(job):
         psets = indlib.param_sets(name, sig, rng, job['nparams'], small=True)
         compared_any = False
         seen_keys = set()
-        for pi, kw in enumerate(psets):
-            for kind in job['kinds']:
-                n = job['n']
+        cases = [(pi, kw, kind, job['n']) for pi, kw in enumerate(psets) for kind in job['kinds']]
+        if job.get('long_n'):
+            # one long sequential input per indicator (several days of 1m candles): closed forms anchored at the END of the
+            # array, underflowing scale factors ... only show on long inputs
+            cases.append((900, {}, 'walk', job['long_n']))
+        for pi, kw, kind, n in cases:
+            for _once in (0,):
                 X = indlib.series(kind, n, rng.randrange(1 << 30))
                 X2 = indlib.series('walk', n, rng.randrange(1 << 30))
                 Xa, X2a = X.copy(), X2.copy()
@@ -164,7 +168,7 @@ def make_jobs(tier, seed):
     chunk = 4
     for i in range(0, len(names), chunk):
         jobs.append({'names': names[i:i + chunk], 'seed': rng.randrange(1 << 30), 'mode': 'bc',
-                     'nparams': 5 if tier == 'quick' else 30, 'n': 160,
+                     'nparams': 5 if tier == 'quick' else 30, 'n': 160, 'long_n': 4000,
                      'kinds': ['walk', 'spikes', 'gappy', 'zerovol'] if tier == 'quick' else ['walk', 'trend', 'flat', 'spikes', 'alternating', 'gappy', 'lattice', 'zerovol', 'tiny', 'flattail', 'outside'],
                      'want_sample': i == 0})
     if tier == 'thorough':
